@@ -884,6 +884,17 @@ func checkValidity(c *Ctx) {
 	// clampOf: conversion cv (uint64 -> int64) takes min(raw, MaxInt64): a two-way join whose MaxInt64 edge is taken
 	// exactly under raw > MaxInt64. Returns the raw value.
 	clampOf := func(cv *ssa.Convert) (ssa.Value, bool) {
+		// the builtin: int64(min(raw, MaxInt64))
+		if mc, isCall := cv.X.(*ssa.Call); isCall {
+			if bi, isB := mc.Call.Value.(*ssa.Builtin); isB && bi.Name() == "min" && len(mc.Call.Args) == 2 {
+				for i := 0; i < 2; i++ {
+					if k, ok := uintConst(mc.Call.Args[i]); ok && k == maxI64 {
+						return mc.Call.Args[1-i], true
+					}
+				}
+			}
+			return nil, false
+		}
 		phi, ok := cv.X.(*ssa.Phi)
 		if !ok || len(phi.Edges) != 2 {
 			return nil, false
